@@ -340,7 +340,7 @@ pub fn interesting_u64() -> BoxedStrategy<u64> {
 /// Source byte streams: `zero_blocks` leading all-zero blocks of `block` bytes, then scripted
 /// bytes, then the keyed continuation.
 pub fn src_spec(block: usize, max_zero_blocks: usize) -> BoxedStrategy<SrcSpec> {
-    let zb = if max_zero_blocks == 0 { Just(0usize).boxed() } else { prop_oneof![8 => 0..=max_zero_blocks, 1 => (max_zero_blocks + 1)..=(max_zero_blocks + 12), 1 => 13usize..=70].boxed() };
+    let zb = if max_zero_blocks == 0 { Just(0usize).boxed() } else { prop_oneof![8 => 0..=max_zero_blocks, 1 => (max_zero_blocks + 1)..=(max_zero_blocks + 12), 1 => 13usize..=70, 1 => 1000usize..=3000].boxed() };
     (zb, vec(any::<u8>(), 0..=2 * block + 3), any::<u64>(), 0u8..4, proptest::bool::weighted(0.3))
         .prop_map(move |(zb, mut tail, salt, mode, words_differ)| {
             let mut prefix = vec![0u8; zb * block];
